@@ -111,7 +111,8 @@ class FilReader(Filterbank):
         nsamps_read = data.size // self.header.nchans
         data = data.reshape(nsamps_read, self.header.nchans).transpose()
 
-        chan_start = int((fch1 - self.header.fch1) / self.header.foff)
+        # nearest channel: the quotient of doubles can fall just below the integer
+        chan_start = round(float((fch1 - self.header.fch1) / self.header.foff))
         data_block = data[chan_start : chan_start + nchans]
         start_mjd = self.header.mjd_after_nsamps(start)
         new_header = self.header.new_header(
@@ -311,7 +312,8 @@ class PFITSReader(Filterbank):
         data = data[startsamp : startsamp + nsamps]
         data = data.reshape(nsamps, self.header.nchans).transpose()
 
-        chan_start = int((fch1 - self.header.fch1) / self.header.foff)
+        # nearest channel: the quotient of doubles can fall just below the integer
+        chan_start = round(float((fch1 - self.header.fch1) / self.header.foff))
         data_block = data[chan_start : chan_start + nchans]
         start_mjd = self.header.mjd_after_nsamps(start)
         new_header = self.header.new_header(
